@@ -33,6 +33,9 @@ class Monitor:
         self.ctx = ctx
         self.res = None
         self.in_lt = False
+        self.prev_call = None
+        self.this_call = None
+        self.imported_under = None
 
     def post(self, steps, rate, accel, accum, result):
         ctx = self.ctx
@@ -54,8 +57,10 @@ class Monitor:
         ctx.count("monitor:calculate_lm evaluated")
         self.res = res
         want = (res.duration, res.position, res.accumulator)
+        self.prev_call, self.this_call = self.this_call, [steps, rate, accel, accum]
         witness = {"fn": "calculate_lm", "args": [steps, rate, accel, accum],
-                   "got": result, "expected": list(want)}
+                   "got": result, "expected": list(want), "previous_call": self.prev_call,
+                   "imported_under": self.imported_under}
         ok_shape = isinstance(result, tuple) and len(result) == 3 and \
             all(type(v) is int for v in result)
         if not ok_shape or tuple(result) != want:
@@ -103,6 +108,53 @@ def one_case(ctx, mon, steps, rate, accel, accum, via="calculate_lm"):
     return mon.res
 
 
+def related_calls(ctx, mon, rng, steps, rate, accel, accum):
+    """History: consecutive requests that share all but one argument (second axis of the same
+    segment, budget +-1, mirrored move, -1 <-> -2)."""
+    for _ in range(rng.randint(1, 3)):
+        c = rng.randrange(6)
+        s2, r2, a2, acc2 = steps, rate, accel, accum
+        if c == 0:
+            s2 = rng.choice((steps + 1, max(0, steps - 1), -steps, steps * 2))
+        elif c == 1:
+            r2 = rng.choice((rate + 1, rate - 1, -rate, rate // 2))
+        elif c == 2:
+            a2 = rng.choice((accel + 1, accel - 1, -accel, 0))
+        elif c == 3:
+            acc2 = rng.choice(("clear", 0, M - 1, rng.randrange(M)))
+        elif c == 4:
+            r2, a2 = [(-2 if v == -1 else -1 if v == -2 else v) for v in (rate, accel)]
+            if (r2, a2) == (rate, accel):
+                a2 = rng.choice((-1, -2))
+        else:
+            s2, r2, a2 = -steps, -rate, -accel
+        res = one_case(ctx, mon, s2, r2, a2, acc2)
+        if res is not None:
+            ctx.case(["history: related arguments after a previous call"], ("rel", s2, r2, a2, acc2, steps, rate, accel),
+                     nontrivial=res.duration > 0)
+        steps, rate, accel, accum = s2, r2, a2, acc2
+
+
+def import_time_phase(ctx, n_per_setting):
+    rng = ctx.rng
+    for setting in G.IMPORT_SETTINGS:
+        contracts.uninstall_all()
+        G.reload_ebb_calc(setting)
+        mon = install(ctx)
+        mon.imported_under = list(setting)
+        done = 0
+        while done < n_per_setting and ctx.alive():
+            _cls, steps, rate, accel, accum = G.gen_lm_case(rng)
+            res = one_case(ctx, mon, steps, rate, accel, accum)
+            if res is None:
+                continue
+            ctx.case(["module imported under low precision", "imported under %s=%d" % setting],
+                     (steps, rate, accel, accum, "import", setting), nontrivial=res.duration > 0)
+            done += 1
+    contracts.uninstall_all()
+    G.reload_ebb_calc(None)
+
+
 NEEDED = ["accel=0", "|accel|<=3", "r1=0", "no reversal, forward", "no reversal, backward",
           "reversal between tick 1 and 2", "budget met before the reversal",
           "reversal before the first step", "steps in both directions",
@@ -147,7 +199,11 @@ def run(ctx):
                                  {"args": [steps, rate, accel, accum], "literal": lit,
                                   "oracle": [res.duration, res.position, res.accumulator]})
         done += 1
-    for cls in NEEDED:
+        if rng.random() < 0.2:
+            related_calls(ctx, mon, rng, steps, rate, accel, accum)
+    import_time_phase(ctx, ctx.budget(600, 5000))
+    mon = install(ctx)
+    for cls in NEEDED + ["history: related arguments after a previous call", "module imported under low precision"]:
         ctx.need(cls, 30)
     ctx.need("monitor:calculate_lm evaluated", 30_000)
     ctx.need("monitor:cross-check through move_dist_lt", 20_000)
@@ -156,8 +212,13 @@ def run(ctx):
 
 
 def replay(ctx, rec):
-    mon = install(ctx)
     w = rec["witness"]
+    if w.get("imported_under"):
+        G.reload_ebb_calc(tuple(w["imported_under"]))
+    mon = install(ctx)
+    mon.imported_under = w.get("imported_under")
+    if w.get("previous_call"):
+        one_case(ctx, mon, *w["previous_call"])
     steps, rate, accel, accum = w["args"]
     ctx.case(["replay"], None)
     one_case(ctx, mon, steps, rate, accel, accum,
